@@ -64,7 +64,8 @@ def build(params):
             'ast': sc['ast'], 'script': sc['script'], 'meta': {},
             'config': {'opt': r.choice((0, 1, 2)), 'dbg': True,
                        'autostatus': r.choice(('cur', 'curi', 'off'))},
-            'operators': histories, 'operator': None, 'pick_seed': H(s, 'picks')}
+            'operators': histories, 'operator': None, 'pick_seed': H(s, 'picks'),
+            'plan': None, 'irq_frac': (r.random() if r.random() < 0.25 else None)}
 
 
 def gen_history(ro, nlines, proc_lines=()):
@@ -133,8 +134,8 @@ def minimise(v, max_runs=160):
 # ---------------------------------------------------------------------------
 
 
-def free_trace(mi, script):
-    sim = Sim(mi, script, budget=CAP)
+def free_trace(mi, script, plan=()):
+    sim = Sim(mi, script, plan, budget=CAP)
     PC, ST, DP, HL = [0], [mi.stmt_at(0)], [0], [0]
 
     def post(s, n):
@@ -153,6 +154,8 @@ def free_trace(mi, script):
 def _mk(scn):
     d = {k: scn[k] for k in ('property', 'run_seed', 'source', 'text', 'ast', 'script',
                              'meta', 'config', 'operator', 'pick_seed')}
+    d['plan'] = scn.get('plan')
+    d['irq_frac'] = None
     d['operators'] = None
     return d
 
@@ -170,6 +173,17 @@ def execute(scn):
     if fout['hang'] or fout['exc']:
         res.count('free_run_unusable')
         return res
+    plan = scn.get('plan')
+    if plan is None and scn.get('irq_frac') is not None and fout['ticks'] > 2:
+        # an interrupt request arriving while some command is executing
+        plan = [{'kind': 'F5a', 'tick': int(scn['irq_frac'] * (fout['ticks'] - 1))}]
+    if plan:
+        scn = dict(scn, plan=plan)
+        fsim, fout, PC, ST, DP, HL = free_trace(mi, scn['script'], plan)
+        res.count('sessions_with_interrupt')
+        if fout['hang'] or fout['exc']:
+            res.count('free_run_unusable')
+            return res
     T = fout['ticks']
     fhist = fsim.history
     lists = [scn['operator']] if scn.get('operator') is not None else scn['operators']
@@ -189,7 +203,7 @@ def debug_run(scn, mi, res, fout, fhist, T, PC, ST, DP, HL):
 
     # --- the debugged run ---------------------------------------------------
     from qvm.dbg import Cmd
-    sim = Sim(mi, scn['script'], budget=T + 50, fresh_module=True)
+    sim = Sim(mi, scn['script'], scn.get('plan') or (), budget=T + 50, fresh_module=True)
     box = {}
 
     def start():
